@@ -664,4 +664,164 @@ for _c in ["BoundsNotOfSizeTwoError", "BoundsOfDifferentLengthError", "BadPrecis
            "PrecisionGreaterThanBoundsRangeError"]:
     REPLAY[f"black_it/search_space.py::{_c}.__init__"] = None
 
+
+
+
+# ================================================================================================ C13
+
+def _trial_primes(n):
+    out, k = [], 2
+    while len(out) < n:
+        if all(k % p for p in out if p * p <= k):
+            out.append(k)
+        k += 1
+    return out
+
+
+def _c13p_cases(tier, seed):
+    rnd = random.Random(seed)
+    top = 400 if tier == "quick" else 2000
+    # small multi-object cases first: state shared between calculator objects must not matter
+    yield {"calls": [[2], [5]]}           # a second, fresh calculator asks for more than the first one cached
+    yield {"calls": [[3, 3], [1, 10], [40]]}
+    yield {"calls": [[1, 2, 3, 5, 40, top, 7, 1]]}
+    for _ in range(6 if tier == "quick" else 40):
+        # several calculators alive in one process, interleaved requests (growing, shrinking, repeated)
+        k = rnd.randint(1, 3)
+        yield {"calls": [[rnd.choice([1, 2, 3, 5, 10, 40, rnd.randint(1, 120)]) for _ in range(rnd.randint(1, 6))]
+                         for _ in range(k)]}
+
+
+def _c13p_check(reg, case):
+    from black_it.samplers.halton import _CachedPrimesCalculator
+    ref = _trial_primes(max(max(c) for c in case["calls"]))
+    calcs = [_CachedPrimesCalculator() for _ in case["calls"]]
+    longest = max(len(c) for c in case["calls"])
+    for step in range(longest):
+        for ci, calls in enumerate(case["calls"]):
+            if step < len(calls):
+                n = calls[step]
+                got = [int(x) for x in calcs[ci].get_n_primes(n)]
+                if got != ref[:n]:
+                    return f"calculator {ci}: get_n_primes({n}) = {got[:12]}..., expected {ref[:min(n, 12)]}..."
+    return None
+
+
+StandIn("C13/primes", "C13", "first 400 primes against trial division; 6 seeded interleavings of 1-3 calculators with "
+        "growing / shrinking / repeated requests (1..120)", "first 2000 primes; 40 interleavings", _c13p_cases, _c13p_check)
+
+
+def _ri_exact(n, b):
+    x, f = Fraction(0), Fraction(1, b)
+    while n > 0:
+        n, r = divmod(n, b)
+        x += r * f
+        f /= b
+    return x
+
+
+def _c13h_cases(tier, seed):
+    rnd = random.Random(seed)
+    starts = list(range(0, 40)) + [2 ** k + d for k in range(3, 17) for d in (-3, -2, -1, 0, 1)] + \
+        [3 ** k + d for k in range(2, 10) for d in (-2, -1, 0)] + [2 ** 16 + 2 ** 12 - 5, 65535, 65536]
+    if tier != "quick":
+        starts += [rnd.randrange(0, 2 ** 16 + 2 ** 12) for _ in range(400)]
+    for s in starts:
+        for d in ((1, 3) if tier == "quick" else (1, 2, 5, 40)):
+            yield {"n_start": s, "size": rnd.choice([1, 2, 3, 4, 7]), "d": d}
+
+
+def _c13h_check(reg, case):
+    from black_it.samplers.halton import halton
+    bases = np.array(_trial_primes(case["d"]))
+    out = halton(case["size"], bases, case["n_start"])
+    if out.shape != (case["size"], case["d"]):
+        return f"shape {out.shape}"
+    for r in range(case["size"]):
+        for c in range(case["d"]):
+            exp = float(_ri_exact(case["n_start"] + 1 + r, int(bases[c])))
+            if abs(out[r, c] - exp) > 1e-12:
+                return (f"halton(size={case['size']}, n_start={case['n_start']})[{r},{c}] = {out[r, c]!r}, radical "
+                        f"inverse of {case['n_start'] + 1 + r} in base {int(bases[c])} is {exp!r}")
+    # two batches equal one batch
+    a = halton(case["size"], bases, case["n_start"])
+    b = halton(case["size"], bases, case["n_start"] + case["size"])
+    ab = halton(2 * case["size"], bases, case["n_start"])
+    if not np.array_equal(np.vstack((a, b)), ab):
+        return f"two batches of {case['size']} from {case['n_start']} differ from one batch of {2 * case['size']}"
+    return None
+
+
+StandIn("C13/halton-function", "C13",
+        "start indices 0-39, 2^k+{-3..1} (k=3..16), 3^k+{-2..0}, 2^16+2^12-5; sizes 1-7; 1 and 3 bases; compared with "
+        "exact rational radical inverses (tolerance 1e-12) and batch concatenation",
+        "plus 400 seeded start indices; 1, 2, 5, 40 bases", _c13h_cases, _c13h_check)
+
+
+def _phi(d):
+    x = 2.0
+    for _ in range(200):
+        x = (1 + x) ** (1.0 / (d + 1))
+    return x
+
+
+def _c13s_cases(tier, seed):
+    rnd = random.Random(seed + 13)
+    n = 10 if tier == "quick" else 80
+    for _ in range(n):
+        yield {"kind": rnd.choice(["halton", "rseq"]), "dims": rnd.choice([1, 2, 3, 5]), "seed": rnd.randrange(10 ** 6),
+               "bs": rnd.randint(1, 5), "sizes": [rnd.randint(1, 6) for _ in range(rnd.randint(1, 5))],
+               "via_sample": rnd.random() < 0.3}
+
+
+def _c13s_check(reg, case):
+    from black_it.search_space import SearchSpace
+    from runtime import e2e
+    d = case["dims"]
+    pr = 1e-5
+    space = SearchSpace([[0.0] * d, [1.0] * d], [pr] * d, verbose=False)
+    s = e2e.make_sampler(case["kind"], case["bs"], seed=case["seed"])
+    twin = e2e.make_sampler(case["kind"], case["bs"], seed=case["seed"])
+    r1 = e2e.make_sampler(case["kind"], case["bs"], seed=None)
+    r2 = e2e.make_sampler(case["kind"], case["bs"], seed=12345)
+    r1.random_state = case["seed"]   # a reset by seed erases whatever the constructor seed left behind
+    r2.random_state = case["seed"]
+    if (s._sequence_index != twin._sequence_index) or (r1._sequence_index != r2._sequence_index) \
+            or not (20 <= s._sequence_index < 2 ** 16) or not (20 <= r1._sequence_index < 2 ** 16):  # noqa: SLF001
+        return (f"start index not seed-determined in [20, 2^16): constructed {s._sequence_index}/"  # noqa: SLF001
+                f"{twin._sequence_index}, reset {r1._sequence_index}/{r2._sequence_index}")  # noqa: SLF001
+    if getattr(r1, "_sequence_start", 0.0) != getattr(r2, "_sequence_start", 0.0):
+        return "R-sequence offset is not determined by the seed after a reset"
+    idx = int(s._sequence_index)  # noqa: SLF001
+    start = float(getattr(s, "_sequence_start", 0.0))
+    empty_p, empty_l = np.zeros((0, d)), np.zeros(0)
+    bases = _trial_primes(d)
+    alpha = [(1 / _phi(d)) ** (c + 1) for c in range(d)]
+    pts = []
+    for size in case["sizes"]:
+        if case["via_sample"]:
+            out = s.sample(space, np.array(pts).reshape(len(pts), d) if pts else empty_p, np.zeros(len(pts)))
+        else:
+            out = s.sample_batch(size, space, empty_p, empty_l)
+        for row in out:
+            pts.append(row)
+    for k, row in enumerate(pts):
+        for c in range(d):
+            if case["kind"] == "halton":
+                exp = float(_ri_exact(idx + 1 + k, bases[c]))
+            else:
+                exp = (start + (idx + k) * alpha[c]) % 1
+            # on this grid snapping moves a point by at most half a step
+            dist = abs(row[c] - exp)
+            if min(dist, 1 - dist if case["kind"] == "rseq" else dist) > pr / 2 + 1e-9:
+                return (f"{case['kind']} point {k} coordinate {c} is {row[c]!r}; the sequence value for start index "
+                        f"{idx} is {exp!r} (batch sizes {case['sizes']}, via_sample={case['via_sample']})")
+    return None
+
+
+StandIn("C13/sampler-sequences", "C13",
+        "10 seeded sampler objects (Halton / R-sequence, 1-5 dims, grid step 1e-5): 1-5 successive draws of sizes 1-6 on "
+        "one object (directly and through sample() with deduplication), compared point by point with the sequence "
+        "continued from the seed-determined start; reset-by-seed twin", "80 objects", _c13s_cases, _c13s_check)
+
 from runtime import scopes_e2e  # noqa: E402,F401  (registers the Calibrator-level stand-ins)
